@@ -40,6 +40,10 @@ def ints_of(line):
     return v[1:]
 
 
+def arg(x):
+    return "SIZE_MAX" if x >= 99999 else str(x)
+
+
 def decode(line, upto=None):
     """Human-readable form of a behaviour (same layout as harness/drv_data.c reads)."""
     v = ints_of(line)
@@ -71,9 +75,9 @@ def decode(line, upto=None):
         elif opc == 2:
             s = "concat(#%d, #%d)" % (a, b)
         elif opc == 3:
-            s = "subrange(#%d, off=%d, len=%d)" % (a, b, c)
+            s = "subrange(#%d, off=%s, len=%s)" % (a, arg(b), arg(c))
         elif opc == 5:
-            s = "copy_region(#%d, loc=%d) offset=%d" % (a, b, aux)
+            s = "copy_region(#%d, loc=%s) offset=%d" % (a, arg(b), aux)
         else:
             s = "%s(#%d)" % (name, a)
         if opc not in (6, 7, 8):
@@ -149,14 +153,15 @@ def run_sim(v, g, idx, seed, num, timeout):
             g.files.append(("sim%d" % idx, out))
 
 
-def mutants(v, pool):
+def mutants(v, pool, tier):
     def one(mut, base):
         src = open(os.path.join(SPEC, "cfg", "Data_%s.cfg" % base)).read().replace('Mut = "none"', 'Mut = "%s"' % mut)
         p = os.path.join(rundir(PROP), "mut_%s.cfg" % mut)
         open(p, "w").write(src)
         return mut, tlc_must_pass("mutant " + mut, GEN, p, workers=2, timeout=600, heap="3g",
                                   metaname="c13_mut_%s_%d" % (mut, os.getpid()))
-    futs = [pool.submit(one, m, b) for m, b in MUTANTS]
+    muts = MUTANTS if tier == "thorough" else [x for x in MUTANTS if x[0] in ("sub_from", "apply_off", "cr_off", "dtor_early")]
+    futs = [pool.submit(one, m, b) for m, b in muts]
 
     def collect():
         for f in futs:
@@ -191,6 +196,8 @@ def replay_files(v, drv, files, flavour, nproc):
     env = dict(os.environ)
     if flavour == "asan":
         env["ASAN_OPTIONS"] = "detect_leaks=1:exitcode=66:abort_on_error=0:detect_stack_use_after_return=1"
+        if os.path.exists("/usr/bin/llvm-symbolizer"):
+            env["ASAN_SYMBOLIZER_PATH"] = "/usr/bin/llvm-symbolizer"
         env["UBSAN_OPTIONS"] = "halt_on_error=1:exitcode=67:print_stacktrace=1"
         env["LSAN_OPTIONS"] = "exitcode=68"
     for name, path in files:
@@ -286,11 +293,11 @@ def run(tier, seed):
     drv = build_driver("drv_data")
     pool = ThreadPoolExecutor(max_workers=8)
     futs = []
-    collect_mutants = mutants(v, pool)
+    collect_mutants = mutants(v, pool, tier)
     bfs = QUICK_BFS if tier == "quick" else QUICK_BFS + THOROUGH_BFS
     for name, w, to in bfs:
         futs.append(pool.submit(run_bfs, v, g, name, w, to))
-    nsim, num = (3, 400) if tier == "quick" else (8, 6000)
+    nsim, num = (2, 600) if tier == "quick" else (8, 8000)
     for i in range(nsim):
         futs.append(pool.submit(run_sim, v, g, i, seed, num, 900 if tier == "quick" else 3000))
     if tier == "thorough":
@@ -332,6 +339,10 @@ def run(tier, seed):
 
 
 def replay(path, seed):
+    if path.endswith(".tlc.out"):
+        # a violation of the model itself: the counterexample is TLC's trace
+        print(open(path).read()[-6000:])
+        return 1
     drv = build_driver("drv_data")
     rc, so, se = sh([drv, path], timeout=600)
     print(so[-3000:])
